@@ -114,6 +114,25 @@ def run(ctx, broken):
     n = 40 if ctx.tier == "quick" else 600
     cs = [tf_case(rng, i) for i in range(n)] + [tfq_case(rng, i) for i in range(n)]
     hs = [host_case(rng, i) for i in range(n)]
+    # SYSTEMATIC zero-Z representations on EVERY point entry point: all-zero, (0,1,0,..), (0,0,0,1,1), generator numerators
+    # with Z = 0, random numerators — each must be refused with the degenerate-point error (never a panic, never a point)
+    Pg = random_subgroup_point(rng)
+    zreps = [(0, 0, 0, 0, 0), (0, 1, 0, 0, 0), (0, 0, 0, 1, 1), (0, 1, 0, 0, 1), (Pg[0], Pg[1], 0, Pg[0], Pg[1]),
+             (rng.fe(), rng.fe(), 0, rng.fe(), rng.fe()), (1, 1, 0, 1, 1), (0, R - 1, 0, 0, 0)]
+    for ze in zreps:
+        for ep in ("cpt", "pt", "ppt", "mulgen", "aeqppt"):
+            p = PProg(); p.tags = ["host-validation", ep + "-zero-Z-systematic"]
+            if ep == "cpt":
+                o, e = p.cpt(ze)
+            elif ep in ("pt", "ppt"):
+                o, e = p.pt(ze, ep)
+            elif ep == "mulgen":
+                sc_ = p.w(rng.fe() % RJ); o, e = p.mulgen(sc_, ze)
+            else:
+                a, _ = p.pt(ext_of(Pg)); p.op("aeqppt %s %s" % (p.refs(a), ext_str(ze))); e = 1
+            # the documented error of the entry point (the generator check reports its own kind also for a zero Z)
+            c = p.case(); c["want_err"] = e; c["cmd"] = "shape" if ep == "mulgen" else "prog"
+            hs.append(c)
     r.run(cs + hs)
     # host-side decisions: the error kind reported by the implementation must be the documented one
     lines = ["shape " + c["src"] for c in hs]
